@@ -24,6 +24,9 @@ Grid mode (several shards x family hours x leaders; Model/C07Grid.lean), entered
   round <s>:<f>,<f> <s>:<f> ...                     (one dataFlushChecker.doFlush over these shards / families)
   wgc <f> ...                                       (one WAL garbage-collect tick; the family hours past their write window)
   shutdown                                          (engine.Close over all shards and families)
+  famcrash <s> <f> <n> | closecrash <s> <f> <n> | shutdowncrash all | shutdowncrash <s> <f> <n>
+                                                    (the process dies after n steps of that family's Flush / Close,
+                                                     resp. inside the shutdown at that family's Close; answer `down`)
   crash | recover | recoverp | walkcrash <n> <0|1>  (restart = the whole recovery walk; walkcrash = the process dies inside it)
 Answers: `<s>.<f>.<l>{positions}` per partition; `recover` appends files / unres per partition, the database
 dictionaries and the index per shard.
@@ -240,6 +243,20 @@ def gridLine (g : Grid) (ws : List String) : Option (Grid × String) :=
   | ["recover"] => let g' := runGrid cfg g [.restart]; some (g', showGrid g' ++ " " ++ showGridDurable g')
   | ["recoverp"] => let g' := runGrid cfg g [.restart]; some (g', showGrid g' ++ " " ++ showGridFiles g')
   | ["shutdown"] => pos (runGrid cfg g (shutdownGrid g))
+  | ["shutdowncrash", "all"] => some (runGrid cfg g (shutdownGrid g ++ [.crash]), "down")
+  | ["shutdowncrash", s, f, n] =>   -- the process dies inside the shutdown: after `n` steps of dataFamily.Close of (s, f)
+    match s.toNat?, f.toNat?, n.toNat? with
+    | some s, some f, some n =>
+      some (runGrid cfg g (shutdownUpTo g s f ++ (famClose s f).take n ++ [.crash]), "down")
+    | _, _, _ => none
+  | ["famcrash", s, f, n] =>        -- ... inside dataFamily.Flush of (s, f), after `n` of freeze / dcommit / ack
+    match s.toNat?, f.toNat?, n.toNat? with
+    | some s, some f, some n => some (runGrid cfg g ((famFlush s f).take n ++ [.crash]), "down")
+    | _, _, _ => none
+  | ["closecrash", s, f, n] =>      -- ... inside (n < 5) or after dataFamily.Close of (s, f)
+    match s.toNat?, f.toNat?, n.toNat? with
+    | some s, some f, some n => some (runGrid cfg g ((famClose s f).take n ++ [.crash]), "down")
+    | _, _, _ => none
   | "round" :: req =>
     match parseReq req with
     | some r => pos (runGrid cfg g (doFlushRound r))
